@@ -93,8 +93,8 @@ class C17(Harness):
 
     @property
     def bounds(self):
-        return {'quick': {'one_line_max': 6, 'two_lines': '<=3+3', 'templates': 13},
-                'thorough': {'one_line_max': 8, 'two_lines': '<=4+4', 'templates': 20}}
+        return {'quick': {'one_line_max': 6, 'two_lines': '<=3+3', 'templates': len(_units('quick')) - 6 - 4 + len(URL_UNITS)},
+                'thorough': {'one_line_max': 8, 'two_lines': '<=4+4', 'templates': len(_units('thorough')) - 8 - 16 + len(URL_UNITS)}}
 
     def budget(self, tier):
         return 170 if tier == 'quick' else 1500
